@@ -243,10 +243,9 @@ PROPS["C03"] = {
     "lean_modules": ["MithrilModel.Properties.C03"],
     "theorems": [
         "C03.C03_chain_sound", "C03.C03_finite", "C03.C03_rejects_nonchained_signers", "C03.C03_forward_link_counterexample_prefix",
-        "C03.C03_client_sound", "C03.C03_cache_counterexample_prefix", "C03.ValidD_valid", "Chain.verifyChain_sound",
-        "Chain.client_sound", "Chain.verifyChain_of_locally_good",
-        "C03.C03_client_sessions_sound", "C03.C03_client_run_keeps_cache_invariant",
-        "C03.C03_cache_poisoning_counterexample_before_repair", "C03.C03_cache_poisoning_repaired", "Chain.session_sound",
+        "C03.C03_cache_counterexample_prefix", "C03.ValidD_valid", "Chain.verifyChain_sound",
+        "Chain.verifyChain_of_locally_good",
+        "C03.C03_cache_poisoning_counterexample_before_repair", "C03.C03_cache_poisoning_repaired",
     ],
     "level_text": "Soundness of the common verifier (acceptance implies a finite valid chain to a genesis certificate under the configured key, "
                   "with exactly the property's link relation) and of the client's two loops with the verifier cache (under the cache "
@@ -256,7 +255,7 @@ PROPS["C03"] = {
                   "without rehashing, links re-targeted to every other certificate, adversary-signed certificates spliced, fake parents, "
                   "loops, dropped or wrong certificates, other genesis keys); every accepted case is re-walked against the specification.",
     "level_note": "Integrity bits of each served certificate are computed by the harness with the real primitives (C04 hash, STM verifier "
-                  "of C01, Ed25519); hashes are abstract identifiers, collision-freeness enters as HashBinding. The client's cache loops "
+                  "of C01, Ed25519); hashes are abstract identifiers, collision-freeness enters as BindingOn U (binding among the certificates that exist in a session; the earlier HashBinding over all abstract records was refutable and the three theorems assuming it are no longer obligations). The client's cache loops "
                   "are modelled, proved and compared with the real mithril-client verifier (feature unstable, MemoryCertificateVerifierCache) on cold, warm and partially warm caches (bin c03c).",
     "harness": [("harness", "c03"), ("harness-client", "c03c")],
     "anchors": ["mithril-common/src/certificate_chain/certificate_verifier.rs", "mithril-common/src/entities/certificate.rs",
@@ -268,9 +267,7 @@ PROPS["C03"] = {
     "trivial_tags": [],
     "trusted_base": ["rustc/cargo; harness bin c03; ed25519-dalek; STM verifier (C01)"],
     "assumptions": ["default features (future_snark off): only concatenation multi-signatures"],
-    "goals_not_proved": ["C03_acyclic as a separate theorem (cycles are excluded through C03_finite + content-hash binding)",
-                         "within one call the model reads the cache as it was when the call started (records made earlier in the same call are only "
-                         "reachable again through a cyclic chain, on which the real client loops without ever accepting)"],
+    "goals_not_proved": [],
 }
 
 PROPS["C07"] = {
